@@ -86,6 +86,43 @@ theorem C15_denotes_observed {cfg : Cfg} {s : State} (h : Reachable cfg s) (n : 
   · rw [he]; exact ⟨by simp [Value.size], rfl⟩
   · rw [he]; exact ⟨by simp [Value.size, hl], by simp [Value.elems, hl]⟩
 
+/-- **With a Debug output stream attached** (`cfg.dbg`) a `$name` that nobody bears additionally
+    raises the warning "Can't find target name" — and *still* evaluates to NULL; a name somebody
+    bears raises nothing; without a Debug stream nothing is raised.  `note` is what evaluating the
+    `$name` operand adds to the state (the printed warning and nothing else: the table, the lists,
+    the values, the objects and the log are untouched), `evalTarget` the value the statement then
+    works with; the last clause spells it out for `println $name.size` (warning, then `0`). -/
+theorem C15_denotes_debug_stream {cfg : Cfg} {s : State} (h : Reachable cfg s) (n : Name) :
+    note cfg s (some (.name n)) =
+      (if cfg.dbg = true ∧ bearers s.log n = [] then say s "!notarget" else s) ∧
+    evalTarget cfg (note cfg s (some (.name n))) n = evalTarget cfg s n ∧
+    (bearers s.log n = [] → evalTarget cfg s n = .obj none) ∧
+    (cfg.dbg = true → bearers s.log n = [] →
+      stmt cfg s (.act (.size (.name n))) = .ok (say (say s "!notarget") "s 0")) := by
+  have i := h.good.inv
+  have hnil : bearers s.log n = [] → evalTarget cfg s n = .obj none := by
+    intro hb
+    rcases C15_denotes h n with ⟨_, he⟩ | ⟨o, hb', _⟩ | ⟨h2, _⟩
+    · exact he
+    · rw [hb] at hb'; cases hb'
+    · rw [hb] at h2; simp at h2
+  refine ⟨note_name i n, evalTarget_note cfg s _ n, hnil, ?_⟩
+  intro hd hb
+  have hn : note cfg s (some (.name n)) = say s "!notarget" := by
+    rw [note_name i n, if_pos ⟨hd, hb⟩]
+  have he : evalTarget cfg (say s "!notarget") n = .obj none := by
+    rw [← hn, evalTarget_note, hnil hb]
+  simp only [stmt, act, Act.src, hn, actCore, evalSrc, he, Value.size]
+  rfl
+
+/-- non-vacuity: nobody bears n3 (= 4) in `demo`; with the Debug stream the warning precedes the
+    answer, without it there is none; a name with bearers never warns -/
+example : ∃ s', stmt { dbg := true } (demoOf { dbg := true }) (.act (.size (.name 4))) = .ok s' ∧
+    s'.out = (demoOf { dbg := true }).out ++ ["!notarget", "s 0"] := ⟨_, rfl, by decide⟩
+example : ∃ s', stmt {} demo (.act (.size (.name 4))) = .ok s' ∧ s'.out = demo.out ++ ["s 0"] := ⟨_, rfl, by decide⟩
+example : ∃ s', stmt { dbg := true } (demoOf { dbg := true }) (.act (.size (.name 2))) = .ok s' ∧
+    s'.out = (demoOf { dbg := true }).out ++ ["s 2"] := ⟨_, rfl, by decide⟩
+
 /-- The host-side queries agree: `GetTarget` finds the single bearer (or none, or reports how
     many), `GetTargetnameIndex` is the 1-based naming position. -/
 theorem C15_host_queries {cfg : Cfg} {s : State} (h : Reachable cfg s) (n : Name) :
@@ -146,7 +183,7 @@ theorem C15_rename_moves {cfg : Cfg} {s : State} (h : Reachable cfg s) {o : ObjI
   have i := h.good.inv
   have hst : stmt cfg s (.act (.setName (.obj o) n)) = .ok (setTargetName s o n) := by
     have : ¬ s.nextObj ≤ o := Nat.not_le.mpr (i.alive_lt o ho)
-    simp [stmt, act, resolve, this, ho]
+    simp [stmt, act, actCore, Act.src, note, resolve, this, ho]
   have hb : ∀ m, bearers (setTargetName s o n).log m =
       if m = normName n then (bearers s.log m).filter (· ≠ o) ++ [o] else (bearers s.log m).filter (· ≠ o) := by
     intro m; rw [(setTargetName_fields s o n).2.2.2.1, bearers_append]; rfl
@@ -175,7 +212,7 @@ theorem C15_remove_removes {cfg : Cfg} {s : State} (h : Reachable cfg s) {o : Ob
   have i := h.good.inv
   have hst : stmt cfg s (.act (.delete (.obj o))) = .ok (destroy s o) := by
     have : ¬ s.nextObj ≤ o := Nat.not_le.mpr (i.alive_lt o ho)
-    simp [stmt, act, resolve, this, ho]
+    simp [stmt, act, actCore, Act.src, note, resolve, this, ho]
   have hb : ∀ m, bearers (destroy s o).log m = (bearers s.log m).filter (· ≠ o) := by
     intro m; rw [(destroy_fields s o).2.2.2.1, bearers_append]; rfl
   refine ⟨hst, h.step hst, hb, ?_, ?_, ?_⟩
@@ -210,47 +247,16 @@ theorem C15_fanout_once {cfg : Cfg} {s s' : State} (h : Reachable cfg s) {n : Na
     (hf : IsFan (.name n) st) (hok : stmt cfg s st = .ok s') :
     ∃ seg, s'.log = s.log ++ seg ∧ (visits seg).Nodup ∧ (visits seg).Sublist (bearers s.log n) ∧
       (∀ o ∈ bearers s.log n, o ∈ visits seg ∨ s'.alive o = false) := by
-  have i := h.good.inv
-  -- all three are `fanOut` with a handler that never executes a fanned-out command itself
   obtain ⟨run, hrun, hst⟩ : ∃ run : State → ObjId → Res, (∀ s o s', run s o = .ok s' → Ext s s') ∧
-      stmt cfg s st = fanOut cfg s (.name n) run := by
+      stmt cfg s st = fanOut cfg (note cfg s (some (.name n))) (.name n) run := by
     cases hf with
     | thread hd => exact ⟨fun st o => acts cfg (some o) hd st, fun s o s' e => acts_ext hd e, rfl⟩
     | rename m => exact ⟨fun st o => .ok (setTargetName st o m), fun s o s' e => by cases e; exact setTargetName_ext _ _ _, rfl⟩
     | delete => exact ⟨fun st o => .ok (destroy st o), fun s o s' e => by cases e; exact destroy_ext _ _, rfl⟩
   rw [hst] at hok
-  unfold fanOut at hok
-  have key : ∀ seg, (visits seg).Sublist (bearers s.log n) → (visits seg).Nodup :=
-    fun seg hs => hs.nodup (i.nodup n)
-  simp only [evalSrc] at hok
-  rcases evalTarget_spec cfg i n with ⟨hb, he⟩ | ⟨o, hb, he⟩ | ⟨h2, hcase⟩
-  · rw [he] at hok
-    simp only [receivers] at hok
-    cases hok
-    exact ⟨[], by simp [say], by simp [visits], by simp [visits], by simp [hb]⟩
-  · rw [he] at hok
-    simp only [receivers] at hok
-    obtain ⟨seg, e, v⟩ := (hrun _ o s' hok).log
-    refine ⟨[.visited o] ++ seg, by rw [e]; simp, ?_, ?_, ?_⟩
-    · rw [visits_append, v]; simp [visits]
-    · rw [visits_append, v, hb]; simp [visits]
-    · intro x hx; rw [hb] at hx; left
-      rw [visits_append, v]; simpa [visits] using hx
-  · have hgroup : ∃ rs, receivers s (evalTarget cfg s n) = .group rs ∧ rs = (bearers s.log n).map some := by
-      rcases hcase with ⟨_, he⟩ | ⟨_, l, _, hl, he⟩
-      · rw [he]; simp only [receivers, List.length_map]
-        rw [if_pos (by omega)]; exact ⟨_, rfl, rfl⟩
-      · rw [he]; simp only [receivers, hl, List.length_map]
-        rw [if_pos (by omega)]; exact ⟨_, rfl, rfl⟩
-    obtain ⟨rs, hr, hrs⟩ := hgroup
-    rw [hr] at hok
-    have sp := fanLoop_spec hrun rs hok
-    obtain ⟨seg, e, sub, cov⟩ := sp.log
-    have hfm : rs.filterMap id = bearers s.log n := by rw [hrs]; simp [List.filterMap_map]
-    rw [hfm] at sub
-    refine ⟨seg, e, key seg sub, sub, ?_⟩
-    intro o ho
-    exact cov o (by rw [hrs]; exact List.mem_map.mpr ⟨o, ho, rfl⟩) (i.alive_lt o (i.bearer n o ho).1)
+  have key := fanOut_once_core (note_good cfg h.good _) hrun hok
+  rw [(note_fields cfg s _).1] at key
+  exact key
 
 /-- non-vacuity: `$n1 thread h` where `h` deletes object 3: object 1 is reached, object 3 is dead
     before its turn and is skipped; with a handler that renames `self` away both are reached -/
@@ -268,42 +274,17 @@ theorem C15_fanout_all_when_only_self_deleted {cfg : Cfg} {s s' : State} (h : Re
       (∃ hd, st = .fan (.name n) hd ∧ ∀ a ∈ hd, a.selfDeleteOnly = true))
     (hok : stmt cfg s st = .ok s') :
     ∃ seg, s'.log = s.log ++ seg ∧ visits seg = bearers s.log n := by
-  have i := h.good.inv
   obtain ⟨run, hrun, hst⟩ : ∃ run : State → ObjId → Res, (∀ s o s', run s o = .ok s' → KeepBut o s s') ∧
-      stmt cfg s st = fanOut cfg s (.name n) run := by
+      stmt cfg s st = fanOut cfg (note cfg s (some (.name n))) (.name n) run := by
     rcases hf with ⟨m, rfl⟩ | rfl | ⟨hd, rfl, hnd⟩
     · exact ⟨fun st o => .ok (setTargetName st o m),
         fun s o s' e => by cases e; exact (setTargetName_keep _ _ _).keepBut o, rfl⟩
     · exact ⟨fun st o => .ok (destroy st o), fun s o s' e => by cases e; exact destroy_keepBut _ _, rfl⟩
     · exact ⟨fun st o => acts cfg (some o) hd st, fun s o s' e => acts_keepBut hd hnd e, rfl⟩
   rw [hst] at hok
-  unfold fanOut at hok
-  simp only [evalSrc] at hok
-  rcases evalTarget_spec cfg i n with ⟨hb, he⟩ | ⟨o, hb, he⟩ | ⟨h2, hcase⟩
-  · rw [he] at hok
-    simp only [receivers] at hok
-    cases hok
-    exact ⟨[], by simp [say], by simp [visits, hb]⟩
-  · rw [he] at hok
-    simp only [receivers] at hok
-    obtain ⟨seg, e, v⟩ := (hrun _ o s' hok).log
-    exact ⟨[.visited o] ++ seg, by rw [e]; simp, by rw [visits_append, v, hb]; simp [visits]⟩
-  · have hgroup : receivers s (evalTarget cfg s n) = .group ((bearers s.log n).map some) := by
-      rcases hcase with ⟨_, he⟩ | ⟨_, l, _, hl, he⟩
-      · rw [he]; simp only [receivers, List.length_map]; rw [if_pos (by omega)]
-      · rw [he]; simp only [receivers, hl, List.length_map]; rw [if_pos (by omega)]
-    rw [hgroup] at hok
-    have hlt : ∀ o, some o ∈ (bearers s.log n).map some → o < s.nextObj := by
-      intro o ho
-      obtain ⟨x, hx, e⟩ := List.mem_map.mp ho
-      cases e
-      exact i.alive_lt o (i.bearer n o hx).1
-    have hfm : ((bearers s.log n).map some).filterMap id = bearers s.log n := by
-      rw [List.filterMap_map]; simp only [Function.comp_def, id, List.filterMap_some]
-    obtain ⟨⟨seg, e, v⟩, -⟩ := fanLoop_selfonly hrun _ (by rw [hfm]; exact i.nodup n) hok hlt
-    refine ⟨seg, e, ?_⟩
-    rw [v, hfm]
-    exact List.filter_eq_self.mpr (fun o ho => (i.bearer n o ho).1)
+  have key := fanOut_all_core (note_good cfg h.good _) hrun hok
+  rw [(note_fields cfg s _).1] at key
+  exact key
 
 example : ∃ s', stmt {} demo (.fanName (.name 2) 3) = .ok s' ∧
     visits (s'.log.drop demo.log.length) = [1, 3] ∧ bearers s'.log 3 = [2, 1, 3] := ⟨_, rfl, by decide, by decide⟩
@@ -318,47 +299,11 @@ theorem C15_fanout_once_field {cfg : Cfg} (hfix : cfg.fieldFan = true) {s s' : S
     {n : Name} {x : Nat} (hok : stmt cfg s (.fieldSet (.name n) x) = .ok s') :
     (∃ seg, s'.log = s.log ++ seg ∧ visits seg = bearers s.log n) ∧
     (∀ o, s'.fld o = if o ∈ bearers s.log n then x else s.fld o) := by
-  have i := h.good.inv
-  rcases evalTarget_spec cfg i n with ⟨hb, he⟩ | ⟨o, hb, he⟩ | ⟨h2, hcase⟩
-  · simp only [stmt, fieldSet, evalSrc, he] at hok
-    cases hok
-    exact ⟨⟨[], by simp [say], by simp [visits, hb]⟩, fun o => by simp [hb, say]⟩
-  · simp only [stmt, fieldSet, evalSrc, he] at hok
-    cases hok
-    refine ⟨⟨[.visited o], rfl, by simp [visits, hb]⟩, fun p => ?_⟩
-    simp only [hb, List.mem_singleton, upd]
-  · have hgroup : receivers s (evalTarget cfg s n) = .group ((bearers s.log n).map some) ∧
-        (∀ r, evalTarget cfg s n ≠ .obj r) ∧ evalTarget cfg s n ≠ .nil := by
-      rcases hcase with ⟨_, he⟩ | ⟨_, l, _, hl, he⟩
-      · rw [he]; simp only [receivers, List.length_map]; rw [if_pos (by omega)]; simp
-      · rw [he]; simp only [receivers, hl, List.length_map]; rw [if_pos (by omega)]; simp
-    obtain ⟨hg, hno, hnn⟩ := hgroup
-    have hfs : fieldSet cfg s (.name n) x =
-        fanLoop (fun st o => .ok { st with fld := upd st.fld o x }) ((bearers s.log n).map some) s := by
-      unfold fieldSet
-      simp only [evalSrc]
-      split
-      · rename_i e; exact absurd e hnn
-      · rename_i e; exact absurd e (hno _)
-      · rename_i e; exact absurd e (hno _)
-      · simp only [hfix, if_true, hg]
-    simp only [stmt, hfs] at hok
-    have halive : ∀ o, some o ∈ (bearers s.log n).map some → s.alive o = true := by
-      intro o ho
-      obtain ⟨y, hy, e⟩ := List.mem_map.mp ho
-      cases e
-      exact (i.bearer n o hy).1
-    have hlt : ∀ o, some o ∈ (bearers s.log n).map some → o < s.nextObj :=
-      fun o ho => i.alive_lt o (halive o ho)
-    obtain ⟨⟨seg, e, v⟩, -⟩ := fanLoop_all (fun st o st' e => by cases e; exact Keep.of_same rfl rfl rfl) _ hok hlt
-    refine ⟨⟨seg, e, ?_⟩, ?_⟩
-    · rw [v, List.filterMap_map]
-      simp only [Function.comp_def, id, List.filterMap_some]
-      exact List.filter_eq_self.mpr (fun o ho => (i.bearer n o ho).1)
-    · have key := fanLoop_setOne x ((bearers s.log n).map some) hok halive
-      intro o
-      rw [key o]
-      simp
+  have hst : stmt cfg s (.fieldSet (.name n) x) = fieldSet cfg (note cfg s (some (.name n))) (.name n) x := rfl
+  rw [hst] at hok
+  have key := fieldSet_fan_core hfix (note_good cfg h.good _) hok
+  rw [(note_fields cfg s _).1, (note_fields cfg s _).2.2.2.2.2.2.1] at key
+  exact key
 
 example : ∃ s', stmt { fieldFan := true } (demoOf { fieldFan := true }) (.fieldSet (.name 2) 7) = .ok s' ∧
     s'.fld 1 = 7 ∧ s'.fld 3 = 7 ∧ s'.fld 2 = 0 := ⟨_, rfl, by decide, by decide, by decide⟩
@@ -371,11 +316,15 @@ example : ∃ s', stmt { fieldFan := true } (demoOf { fieldFan := true }) (.fiel
 theorem C15_fanout_field_fails_unrepaired {cfg : Cfg} (hraw : cfg.fieldFan = false) {s : State}
     (h : Reachable cfg s) {n : Name} (h2 : 2 ≤ (bearers s.log n).length) (x : Nat) :
     stmt cfg s (.fieldSet (.name n) x) = .ok (say s "!cast") := by
-  rcases evalTarget_spec cfg h.good.inv n with ⟨hb, _⟩ | ⟨o, hb, _⟩ | ⟨_, ⟨_, he⟩ | ⟨_, l, _, _, he⟩⟩
+  have i := h.good.inv
+  have hn : note cfg s (some (.name n)) = s := by
+    rw [note_name i n, if_neg]
+    intro hc; rw [hc.2] at h2; simp at h2
+  rcases evalTarget_spec cfg i n with ⟨hb, _⟩ | ⟨o, hb, _⟩ | ⟨_, ⟨_, he⟩ | ⟨_, l, _, _, he⟩⟩
   · rw [hb] at h2; simp at h2
   · rw [hb] at h2; simp at h2
-  · simp [stmt, fieldSet, evalSrc, he, hraw]
-  · simp [stmt, fieldSet, evalSrc, he, hraw]
+  · simp [stmt, hn, fieldSet, evalSrc, he, hraw]
+  · simp [stmt, hn, fieldSet, evalSrc, he, hraw]
 
 /-- the witness: two objects bear n1, `$n1.fld = 7` reaches neither -/
 example : 2 ≤ (bearers demo.log 2).length ∧
